@@ -18,9 +18,9 @@ PROP = {
             "holds an integer and float32 for exactly representable floats in print/compare/arithmetic positions; []byte for a "
             "string that is only printed or passed to a string filter. All six are rendered on the real engine (and by the "
             "model); a difference is isolated to one statement and minimised to the variable and representation feature. "
-            "Fixed family (shard 0, real engine only; repsNestedDropFamily): 1070 rows (name, template, variant bindings) under fixed case "
+            "Fixed family (shard 0, real engine only; repsNestedDropFamily): 1077 rows (name, template, variant bindings) under fixed case "
             "names `reps-nested <name>`, the generic twin made from the variant by stripping the drop wrappers and the container types "
-            "at every depth; ORACLE: the variant renders exactly what its twin renders. 12 explicit rows (the four former deviations "
+            "at every depth; ORACLE: the variant renders exactly what its twin renders. 19 explicit rows (the four former deviations "
             "drop-in-printed-map, drop-in-array-to-string, drop-of-drop-in-array-equal, uniq-typed-nested-slice, which now must agree; "
             "controls; lookups through up to five drops in a row), 19 array shapes x 38 paths and 12 map shapes x 28 paths (drops at "
             "depth 1-3 and at every depth, drop of drop of drop, maps in arrays and arrays in maps, drops as map values, typed slices "
@@ -48,12 +48,13 @@ TEXT = {
               'two environments with pointwise equivalent bindings gives the same RunResult (mutual induction over the compiled '
               'tree on the two runs in lock step: rel_renderNode; eval_rel for expressions; assign/capture/loop/forloop/cycle/'
               'include state threading); run_rep_independent_upto_unmodelled is the same up to the boundary of the model. '
-              'Standard configuration (d = false): stdOut_respects (printing; proved for d = true as well, see below), opEq/opLt/opContains_prep_vrel and '
+              'Standard configuration: stdOut_respects (printing), opEq/opLt/opContains_prep_vrel and '
               'equal_prep_repEq (comparisons), filterRespects_std (exactly: every filter name except sort, sort_natural and those that '
-              'observe the Go representation - the value/debugging filters json, inspect, type) / filterRespects_std_upto (up to '
+              'observe the Go representation - the value/debugging filters json, inspect, type) - these three for EVERY d, i.e. also for the relation '
+              'with drops nested in containers - / filterRespects_std_upto (d = false, up to '
               'unmodelled results: every name except json, inspect, type; uniq respects the equivalence since '
-              'fixes/nested-drops-resolved.patch: uniq_respects for the relation d = false, and answering unmodelled on both sides when an element '
-              'holds a pointer; its element key and loop uniqKey_repEq, uniqOn_rel for every d; '
+              'fixes/nested-drops-resolved.patch: uniq_respects, answering unmodelled on both sides when an element '
+              'holds a pointer; its element key and loop uniqKey_repEq, uniqOn_rel; '
               'filterRespects_of_scalar: any filter whose parameters are all bool/int/float64/string/time, whatever its body; sort '
               'and sort_natural exactly on at most 12 elements (congruence of the insertion-sort model insertionSortM: '
               'sortWith_rel_short, sortNaturalWith_rel_short) and through mergeSort_rel (Proofs.RepEqSort; by the Lean core lemma '
@@ -61,13 +62,31 @@ TEXT = {
               'run_std_rep_independent_partial / run_std_rep_independent_without_repr_filters: on the standard engine with any set of '
               'registered filters that excludes json, inspect and type every template renders to agreeing results (equal, or one run is outside the '
               'model) for environments that differ in typed vs generic slices, fixed arrays, typed maps at any depth and in '
-              'drops/pointers around a binding. Drops nested in containers (d = true): run_stdOut_rep_independent_nested_drops - for '
-              'every comparison/filter layer that respects the equivalence with nested drops, the STANDARD output layer (stdOut_respects t true: '
-              'writeObject writes arrays element by element and maps through fmt.Sprint(values.ResolveDrops(.)); sprintR_norm, writeChunksL_norm '
-              'for every d) and every template render two such environments to the same result; sprintR_repEq (every place that prints in Go '
-              'syntax: Convert to string, join, sort_natural) and uniqKey_repEq / uniqOn_rel (the element key and the loop of uniq) hold for every d, d = true '
-              'included; the congruence of values.Equal / Less / contains and of the filter bodies as filters (uniq_respects too) is proved for the '
-              'relation d = false only. The four former deviations are theorems of the opposite statement, '
+              'drops/pointers around a binding. Drops nested in containers (d = true): run_std_rep_independent_nested_drops - on the standard engine '
+              'without sort_natural, json, inspect, type (stdPrimsOnly withoutNestedOpen; sort IS on it) every template renders to agreeing results (equal, or one run '
+              'is outside the model) for environments whose bindings have the same Liquid values in any Go representation, drops (and drops that yield drops) at ANY '
+              'depth of arrays and maps included (ERel true; run_std_rep_independent_nested_drops_vrel states the hypothesis as VRel true on bindings none of which is '
+              'the forloop record; run_std_rep_independent_nested_drops_partial for any set of registered filters that excludes those four; '
+              'stdPrims_respect_nested_drops: PrimsRespect true true of that layer; filterRespects_std_nested: FilterRespects true true for every name but those four; '
+              'std_filter_respects_nested_drops: FilterRespects false true, exactly, for every name but sort and those four). '
+              'Operation by operation: values.Equal applies ToLiquid, which follows a chain of drops, to both operands at every depth (Cmp.equalAux_pn_left/right, '
+              'opEq_prep_vrel, equal_prep_repEq for every d), Less orders scalars only (opLt_prep_vrel), an array contains by Equal and a map by its keys '
+              '(opContains_prep_vrel); and/or/truth tests, index and property lookup, first/last/size, loop items, ranges and loop modifiers take the result of a lookup '
+              '- which may BE a drop - through unwrap (test_rel, indexValue_rel, propertyValue_rel, loopItems_unw_rel, intOf_rel: every d); Convert to []any '
+              'passes every element through ToLiquid (convElems_noDrops, toLiquid_repEq), so first, last, reverse, compact, concat, uniq, join, map see no drop at the top of an '
+              'element (a drop that yields nil IS nil for compact and join) and respect drops below it (first_respects ... map_respects, size/default/dividedBy_respects for every d); '
+              'Convert to string prints fmt.Sprint(values.ResolveDrops(.)) (convert_scalar_rel, sprintR_repEq), so every filter with scalar parameters does. '
+              'sort and sort: key respect nested drops since fixes/sort-key-drops.patch (sort_respects for every d, up to the unmodelled tie order beyond 12 elements; '
+              'keyIndex_repEq, keyIndex_isNil, lessByKeyM_repEq, sortM_rel, sortByM_rel, sortWith_rel for every d): Less compares through ToLiquid, sortableByProperty.Less passes the '
+              'entry under the key through ToLiquid BEFORE its nil test, and sort and sort_natural name the key by fmt.Sprint(values.ResolveDrops(key)). Before that repair '
+              'sort: key and sort_natural: key did NOT respect them (found while proving this layer): {{ a | sort: "k" | map: "n" | join }} with a = [{"k": 1, "n": "x"}, {"k": Drop(nil), "n": "y"}] '
+              'rendered "x y" and with {"k": nil} "y x"; {{ a | sort: k | map: "n" | join }} and {{ a | sort_natural: k | map: "n" | join }} over entries keyed "[1]" rendered "x y" for '
+              'k = [Drop(1)] and "y x" for k = [1]; the three former counterexamples of Proofs/C18.lean are theorems of the opposite statement, evaluated on the same templates and bindings '
+              '(sort_key_drop_nil_repaired, sort_key_name_drops_repaired, sort_natural_key_name_drops_repaired). sort_natural is left out of the nested-drops theorem: its congruence '
+              '(sortNaturalWith_rel, Proofs.RepEqSort) is proved for d = false only; no deviation of the code is known there. '
+              'run_stdOut_rep_independent_nested_drops: for every comparison/filter layer that respects the equivalence with nested drops, the STANDARD output layer '
+              '(stdOut_respects t true: writeObject writes arrays element by element and maps through fmt.Sprint(values.ResolveDrops(.)); sprintR_norm, writeChunksL_norm '
+              'for every d) and every template render two such environments to the same result. The four former deviations are theorems of the opposite statement, '
               'evaluated on the same templates and bindings (uniq_typed_nested_slice_repaired, drop_in_printed_map_repaired, '
               'drop_in_array_to_string_repaired, drop_of_drop_in_array_equal_repaired). Forced restrictions are recorded as evaluated counterexamples in '
               'Proofs/C18.lean (type prints the Go type; json/inspect marshal the Go value: '
@@ -82,14 +101,14 @@ TEXT = {
               'equal_num/less_num of Proofs.C09, audited under C09 and not here; no theorem on arithmetic by width nor on float32). Tie: the `reps` stream '
               'renders every generated template with the generic and five derived Go representations of one logical environment '
               'on the model and on the real engine and requires all of them to render identically on the real engine; in addition '
-              'a fixed family of 1070 (variant, generic twin) rows with drops and typed containers nested at depth 1-3 under every printing, '
+              'a fixed family of 1077 (variant, generic twin) rows with drops and typed containers nested at depth 1-3 under every printing, '
               'comparison and array-filter path is run on the real engine only and every row must agree (the four former deviations among them).'),
     "design_ref": 'DESIGN.md 6 C18',
     "note": NOTE + ('The property as stated was FALSE on the real engine in four recorded places (a drop inside a map that is printed '
               'whole, a drop inside an array converted to a string parameter, a drop that yields a drop inside an array under '
               'case/when, uniq on nested typed slices); they are repaired by fixes/nested-drops-resolved.patch (known_findings.json K-C18-*, '
               'status fixed; DESIGN 7.1b), the former counterexamples of Proofs/C18.lean are theorems of the opposite statement, and the '
-              'fixed family of the reps stream requires all of them (and 1066 further rows) to agree; no pair is whitelisted any more. '
+              'fixed family of the reps stream requires all of them (and 1073 further rows) to agree; no pair is whitelisted any more. '
               'values.ToLiquid stops after 64 drops in a row and values.ResolveDrops after 64 levels of containers (guards against a drop that '
               'yields itself); the model follows every chain to its end and the driver answers `unmodelled` for a value that holds a drop '
               'and is nested more than 64 deep (GoVal.withinDropDepth). json, inspect and type still print the Go representation of a nested '
@@ -100,9 +119,11 @@ TEXT = {
               'relation without drops nested in containers (d = false), up to unmodelled results (agreement is vacuous when either '
               'run is outside the model), and without the filters json, '
               'inspect, type (which observe the Go representation and do not respect the equivalence: counterexamples in Proofs/C18.lean); '
-              'for the relation WITH drops nested in containers (d = true) the output layer (stdOut_respects, run_stdOut_rep_independent_nested_drops), '
-              'printing in Go syntax (sprintR_repEq) and the element key and loop of uniq (uniqKey_repEq, uniqOn_rel) are proved; the standard comparisons '
-              'and the filters as a layer (PrimsRespect t true stdPrims) are not: they are covered by the reps stream and its fixed family only. '
+              'for the relation WITH drops nested in containers (d = true) it is proved likewise, up to unmodelled results, for the standard engine without json, inspect, type '
+              'AND without sort_natural (run_std_rep_independent_nested_drops): sort_natural on values with nested drops is not proved (Proofs.RepEqSort proves it for d = false) and is covered by '
+              'the reps stream and its fixed family only. Two further deviations were found while proving the nested-drops layer and are repaired by fixes/sort-key-drops.patch '
+              '(known_findings.json F-C18-sort-key-drops, status fixed): sort by a key did not sort an entry that is a drop yielding nil first, and sort / sort_natural named their key by '
+              'fmt.Sprint without resolving the drops a container key holds; five rows of the fixed family (sort-key-*, sort-natural-key-name-holds-drop) fail on the unrepaired tree and must agree now. '
               'Pointers are followed at the top of a binding or expression result only: pointers stored inside maps or arrays '
               '(reached by lookup) and pointers to a struct, range or time are outside the equivalence and covered by the reps '
               'stream only. Numeric width: theorems for printing and truthiness of integers only; comparison by C09 (not audited '
